@@ -31,6 +31,7 @@ import (
 	"net/netip"
 	"net/url"
 	"os"
+	"slices"
 	"strconv"
 	"strings"
 	"testing"
@@ -180,39 +181,71 @@ func c15IsLoopbackHost(h string) bool {
 	return err == nil && ip.IsLoopback()
 }
 
-func c15Class(raw string) string {
-	u, err := url.Parse(raw)
-	if err != nil {
-		return "invalid"
-	}
-	switch strings.ToLower(u.Scheme) {
-	case "https":
-		return "https"
-	case "http":
-		if c15IsLoopbackHost(u.Hostname()) {
-			return "lo"
-		}
-		return "http"
-	case "javascript":
-		return "js"
-	case "data":
-		return "data"
-	case "vbscript":
-		return "vbs"
-	}
-	if c15IsLoopbackHost(u.Hostname()) {
-		return "lo"
-	}
-	return "other"
+// c15URLCls is the class of a URL in the three dimensions of OAuthFlow.tla (URLClasses):
+// scheme class, authority class, form.  It is what the monitor judges (OAuthFlow!Safe, OAuthFlow!Script).
+type c15URLCls struct {
+	Sch  string `json:"sch"`  // https | http | js | data | vbs | other | invalid
+	Auth string `json:"auth"` // lo (loopback host) | rem (any other host) | none (no authority)
+	Form string `json:"form"` // hier (scheme://authority...) | opaque (scheme:rest)
 }
 
-func c15IsScript(raw string) bool {
-	switch c15Class(raw) {
-	case "js", "data", "vbs":
-		return true
+func c15Classify(raw string) c15URLCls {
+	u, err := url.Parse(raw)
+	if err != nil {
+		return c15URLCls{"invalid", "none", "opaque"}
 	}
-	return false
+	c := c15URLCls{Sch: "other", Auth: "none", Form: "opaque"}
+	switch strings.ToLower(u.Scheme) {
+	case "https":
+		c.Sch = "https"
+	case "http":
+		c.Sch = "http"
+	case "javascript":
+		c.Sch = "js"
+	case "data":
+		c.Sch = "data"
+	case "vbscript":
+		c.Sch = "vbs"
+	}
+	// hierarchical form: "//" follows the scheme (RFC 3986 section 3: hier-part = "//" authority path-abempty)
+	if i := strings.Index(raw, ":"); u.Scheme != "" && i >= 0 && strings.HasPrefix(raw[i+1:], "//") {
+		c.Form = "hier"
+		switch {
+		case u.Host == "":
+		case c15IsLoopbackHost(u.Hostname()):
+			c.Auth = "lo"
+		default:
+			c.Auth = "rem"
+		}
+	}
+	return c
 }
+
+func (c c15URLCls) script() bool { return c.Sch == "js" || c.Sch == "data" || c.Sch == "vbs" }
+
+// tag names the class in signatures and samples: https, lo (http on a loopback host), http, js/data/vbs (opaque),
+// js_lo/... (script-capable scheme, hierarchical, loopback authority), js_rem/... (the same with another authority)
+func (c c15URLCls) tag() string {
+	switch {
+	case c.Sch == "https" || c.Sch == "invalid":
+		return c.Sch
+	case c.script() && c.Form == "opaque":
+		return c.Sch
+	case c.script() && c.Auth == "lo":
+		return c.Sch + "_lo"
+	case c.script() && c.Auth == "rem":
+		return c.Sch + "_rem"
+	case c.script():
+		return c.Sch + "_noauth"
+	case c.Auth == "lo":
+		return "lo"
+	}
+	return c.Sch // http | other
+}
+
+func c15Class(raw string) string { return c15Classify(raw).tag() }
+
+func c15IsScript(raw string) bool { return c15Classify(raw).script() }
 
 func c15NoQuery(raw string) string {
 	if i := strings.IndexAny(raw, "?#"); i >= 0 {
@@ -343,33 +376,37 @@ type c15Served struct {
 	IP     bool   `json:"ip"`
 	Ident  string `json:"ident"`
 	For    string `json:"for"` // the resource / authorization server identifier this well-known location belongs to
+	// the classes (tags) of the URL-valued fields of the document, as "field-independent" vacuity evidence
+	UCls []string `json:"ucls"`
 }
 
 type c15Req struct {
-	Kind   string `json:"kind"`
-	Loc    string `json:"loc"`
-	Method string `json:"method"`
-	URL    string `json:"url"`
-	Cls    string `json:"cls"`
-	Doc    int    `json:"doc"`
-	Cred   string `json:"cred"`
-	Pre    string `json:"pre"`
-	Grant  string `json:"grant"`
-	AS     string `json:"as"`     // reg/token: the authorization server the endpoint belongs to
-	Predef bool   `json:"predef"` // a predefined (2025-03-26 "no metadata") endpoint, not one named by a document
+	Kind   string    `json:"kind"`
+	Loc    string    `json:"loc"`
+	Method string    `json:"method"`
+	URL    string    `json:"url"`
+	Cls    c15URLCls `json:"cls"`
+	Tag    string    `json:"tag"`
+	Doc    int       `json:"doc"`
+	Cred   string    `json:"cred"`
+	Pre    string    `json:"pre"`
+	Grant  string    `json:"grant"`
+	AS     string    `json:"as"`     // reg/token: the authorization server the endpoint belongs to
+	Predef bool      `json:"predef"` // a predefined (2025-03-26 "no metadata") endpoint, not one named by a document
 }
 
 type c15Auth struct {
-	Called bool   `json:"called"`
-	URL    string `json:"url"`
-	Cls    string `json:"cls"`
-	Doc    int    `json:"doc"`
-	Cred   string `json:"cred"`
-	Pre    string `json:"pre"`
-	Adv    bool   `json:"adv"`
-	S256   bool   `json:"s256"`
-	AS     string `json:"as"`
-	Predef bool   `json:"predef"`
+	Called bool      `json:"called"`
+	URL    string    `json:"url"`
+	Cls    c15URLCls `json:"cls"`
+	Tag    string    `json:"tag"`
+	Doc    int       `json:"doc"`
+	Cred   string    `json:"cred"`
+	Pre    string    `json:"pre"`
+	Adv    bool      `json:"adv"`
+	S256   bool      `json:"s256"`
+	AS     string    `json:"as"`
+	Predef bool      `json:"predef"`
 }
 
 type c15Ares struct {
@@ -448,6 +485,21 @@ type c15World struct {
 
 func (w *c15World) pick(xs ...string) string { return xs[w.r.IntN(len(xs))] }
 
+func (w *c15World) route(raw string) *c15Route { return w.routes[c15Key(raw)] }
+
+// setRoute registers rt for raw unless the URL is already taken; it reports whether it did.
+func (w *c15World) setRoute(raw string, rt *c15Route) bool {
+	k := c15Key(raw)
+	if _, dup := w.routes[k]; dup {
+		return false
+	}
+	w.routes[k] = rt
+	return true
+}
+
+// scriptURL concretises a script-capable URL class: "js" / "data" / "vbs" are the opaque forms (no authority),
+// "jslo" / "jsrem" a script-capable scheme (any of the three) in hierarchical form with a loopback / another
+// authority.  tag ends up in the payload (hierarchical: the path; a JavaScript line comment, a newline, the payload).
 func (w *c15World) scriptURL(cls, tag string) string {
 	switch cls {
 	case "js":
@@ -456,8 +508,45 @@ func (w *c15World) scriptURL(cls, tag string) string {
 		return w.pick("data:", "DATA:") + "text/html," + tag
 	case "vbs":
 		return w.pick("vbscript:", "VBScript:") + "msgbox(\"" + tag + "\")"
+	case "jslo":
+		return w.hierScript(w.loHost()+":"+w.pick("7070", "8080", "3000"), tag, true)
+	case "jsrem":
+		return w.hierScript(w.notLoopback("evil.example.net"), tag, true)
 	}
 	return ""
+}
+
+// hierScript builds scheme://authority[/payload] for a script-capable scheme.  The result must survive
+// url.Parse(..).String() unchanged (the routes of the scripted world are keyed by the URL string).
+func (w *c15World) hierScript(authority, tag string, payload bool) string {
+	scheme := w.pick("javascript", "javascript", "JavaScript", "data", "vbscript", "VBScript")
+	u := scheme + "://" + authority
+	if payload {
+		switch strings.ToLower(scheme) {
+		case "javascript":
+			u += "/%0Aalert('" + tag + "')"
+		case "data":
+			u += "/text/html," + tag
+		default:
+			u += "/%0Amsgbox('" + tag + "')"
+		}
+	}
+	// (url.Parse lower-cases the scheme; the routes are looked up by the re-serialised request URL)
+	pu, err := url.Parse(u)
+	if err != nil || !strings.EqualFold(pu.String(), u) || pu.String()[len(scheme):] != u[len(scheme):] {
+		panic(fmt.Sprintf("c15 harness: script URL %q does not round-trip (%v)", u, err))
+	}
+	return u
+}
+
+// c15Key is the key of a URL in the route table: without query / fragment, scheme in lower case
+// (net/url lower-cases the scheme of every URL the SDK parses and re-serialises).
+func c15Key(raw string) string {
+	raw = c15NoQuery(raw)
+	if i := strings.Index(raw, ":"); i > 0 {
+		return strings.ToLower(raw[:i]) + raw[i:]
+	}
+	return raw
 }
 
 func (w *c15World) loHost() string {
@@ -528,6 +617,10 @@ func (w *c15World) issVary(base, rel string) (string, error) {
 		o := "https"
 		if strings.EqualFold(scheme, "https") {
 			o = "http"
+		}
+		if w.r.IntN(3) == 0 {
+			// a script-capable scheme on the same authority (for a loopback issuer: the class JsLo of OAuthFlow.tla)
+			o = w.pick("javascript", "data", "vbscript")
 		}
 		v = o + "://" + u.Host + rest
 	case "userinfo":
@@ -627,6 +720,11 @@ func (w *c15World) asURL(cls, loc string, second, path bool) string {
 		u = "http://" + w.loHost() + ":" + map[string]string{"hdr": "9001", "path": "9002", "root": "9003"}[loc]
 	case "http":
 		u = "http://" + w.notLoopback(host)
+	case "jslo":
+		// an authorization server identifier: scheme://authority[/path], no payload
+		u = w.hierScript(w.loHost()+":"+map[string]string{"hdr": "9001", "path": "9002", "root": "9003"}[loc], host, false)
+	case "jsrem":
+		u = w.hierScript(w.notLoopback(host), host, false)
 	default:
 		return w.scriptURL(cls, host)
 	}
@@ -666,15 +764,26 @@ func (w *c15World) buildPRM(loc, o, asked string) *c15Doc {
 		as = []string{"js"}
 	case "as_data":
 		as = []string{"data"}
+	case "as_jslo":
+		as = []string{"jslo"}
+	case "as_jsrem":
+		as = []string{"jsrem"}
 	case "as2_http":
 		as = []string{"https", "http"}
 	case "as2_js":
 		as = []string{"https", w.pick("js", "data", "vbs")}
+	case "as2_jslo":
+		as = []string{"https", "jslo"}
 	case "no_as":
 		as = nil
-	case "field_js":
+	case "field_js", "field_jslo", "field_jsrem":
 		f := w.pick("jwks_uri", "resource_documentation", "resource_policy_uri", "resource_tos_uri")
-		m[f] = w.scriptURL(w.pick("js", "data", "vbs"), f)
+		switch o {
+		case "field_js":
+			m[f] = w.scriptURL(w.pick("js", "data", "vbs"), f)
+		default:
+			m[f] = w.scriptURL(strings.TrimPrefix(o, "field_"), f)
+		}
 	default:
 		panic("unknown PRM outcome " + o)
 	}
@@ -700,8 +809,8 @@ func (w *c15World) buildPRM(loc, o, asked string) *c15Doc {
 	d.status, d.ctype, d.body = c15JSON(200, m)
 	// everything that can be derived from the first authorization server
 	for i, a := range asURLs {
-		if c15IsScript(a) {
-			continue
+		if c15Classify(a).Auth == "none" {
+			continue // no authority: nothing can be derived from it
 		}
 		w.addAS(a, d, i == 0)
 	}
@@ -712,7 +821,7 @@ func (w *c15World) buildPRM(loc, o, asked string) *c15Doc {
 func (w *c15World) addAS(asu string, from *c15Doc, scripted bool) {
 	for _, lw := range c15WellKnownASM(asu) {
 		loc, wk := lw[0], lw[1]
-		if _, dup := w.routes[wk]; dup {
+		if w.route(wk) != nil {
 			continue
 		}
 		ch := c15ASMChoice{O: "404"}
@@ -721,13 +830,10 @@ func (w *c15World) addAS(asu string, from *c15Doc, scripted bool) {
 		}
 		rt := &c15Route{kind: "asm", loc: loc, asked: asu, from: from}
 		rt.doc = w.buildASM(loc, ch, asu)
-		w.routes[wk] = rt
+		w.setRoute(wk, rt)
 	}
-	for kind, suffix := range map[string]string{"auth": "/authorize", "token": "/token", "reg": "/register"} {
-		u := asu + suffix
-		if _, dup := w.routes[u]; !dup {
-			w.routes[u] = &c15Route{kind: kind, loc: "predef", from: from, issOf: asu, as: asu}
-		}
+	for _, ks := range [][2]string{{"auth", "/authorize"}, {"token", "/token"}, {"reg", "/register"}} {
+		w.setRoute(asu+ks[1], &c15Route{kind: ks[0], loc: "predef", from: from, issOf: asu, as: asu})
 	}
 }
 
@@ -774,6 +880,11 @@ func (w *c15World) buildASM(loc string, ch c15ASMChoice, asked string) *c15Doc {
 		pkce = []string{"plain"}
 	case "rev_http":
 		cls[w.pick("rev", "jwks", "doc")] = "http"
+	case "auth_jslo", "auth_jsrem", "tok_jslo", "tok_jsrem", "reg_jslo", "reg_jsrem", "intro_jslo", "intro_jsrem",
+		"jwks_jslo", "jwks_jsrem", "doc_jslo", "rev_jslo":
+		// OAuthFlow!ASMFieldVar: one field with a script-capable scheme in hierarchical form
+		i := strings.Index(o, "_")
+		cls[o[:i]] = o[i+1:]
 	case "iss_other":
 		iss = "https://evil.example.org"
 	case "iss_sub":
@@ -840,7 +951,7 @@ func (w *c15World) buildASM(loc string, ch c15ASMChoice, asked string) *c15Doc {
 		m[f] = u
 		d.urls = append(d.urls, u)
 		if kind := map[string]string{"auth": "auth", "tok": "token", "reg": "reg"}[k]; kind != "" {
-			w.routes[u] = &c15Route{kind: kind, loc: loc, from: d, issOf: iss, as: asked, adv: ch.IP}
+			w.routes[c15Key(u)] = &c15Route{kind: kind, loc: loc, from: d, issOf: iss, as: asked, adv: ch.IP}
 		}
 	}
 	if cls["doc"] != "" {
@@ -889,6 +1000,8 @@ func c15NewWorld(s *c15Script, seed uint64) *c15World {
 		w.hdrURL = "http://" + w.notLoopback("meta.example.net") + "/prm-hdr"
 	case "hdr_js":
 		w.hdrURL = w.scriptURL(w.pick("js", "data"), "prm-hdr")
+	case "hdr_jslo", "hdr_jsrem":
+		w.hdrURL = w.scriptURL(strings.TrimPrefix(s.Ch, "hdr_"), "prm-hdr")
 	}
 	prmOut := func(loc string) string {
 		if o, ok := s.PRM[loc]; ok {
@@ -907,7 +1020,7 @@ func c15NewWorld(s *c15Script, seed uint64) *c15World {
 	for _, l := range locs {
 		rt := &c15Route{kind: "prm", loc: l.loc, asked: l.asked}
 		rt.doc = w.buildPRM(l.loc, prmOut(l.loc), l.asked)
-		w.routes[l.url] = rt
+		w.routes[c15Key(l.url)] = rt
 	}
 	// 2025-03-26 fallback: the origin of the MCP server is the authorization server
 	w.addAS(w.origin, nil, true)
@@ -957,7 +1070,7 @@ func (w *c15World) challenge() (int, []string) {
 		v := w.pick("Bearer resource_metadata="+q(w.hdrURL), "Bearer realm=\"mcp\", resource_metadata="+q(w.hdrURL)+", scope=\"read\"",
 			"bearer Resource_Metadata="+w.hdrURL, "Bearer scope=\"a b\" , resource_metadata="+q(w.hdrURL))
 		return 401, []string{v}
-	case "hdr_js":
+	case "hdr_js", "hdr_jslo", "hdr_jsrem":
 		return 401, []string{"Bearer resource_metadata=" + q(strings.ReplaceAll(w.hdrURL, "\"", "'"))}
 	case "hdr_multi":
 		if w.r.IntN(2) == 0 {
@@ -1004,11 +1117,17 @@ func (w *c15World) serve(d *c15Doc, rt *c15Route) {
 	}
 	f := c15Served{Kind: d.kind, Var: d.variant, Loc: d.loc, Pkce: d.pkce, IP: d.ip, Ident: d.ident, For: rt.asked}
 	f.Match = c15Rel(d.ident, rt.asked)
+	f.UCls = []string{}
 	for _, u := range d.urls {
-		if c15IsScript(u) {
+		c := c15Classify(u)
+		if c.script() {
 			f.Script = true
 		}
+		if t := c.tag(); !slices.Contains(f.UCls, t) {
+			f.UCls = append(f.UCls, t)
+		}
 	}
+	slices.Sort(f.UCls)
 	w.line.Served = append(w.line.Served, f)
 	d.obsIdx = len(w.line.Served)
 }
@@ -1026,14 +1145,13 @@ func c15Resp(req *http.Request, status int, ctype string, body []byte) *http.Res
 // RoundTrip is the only way out of the SDK: every request made through the injected client lands here.
 func (w *c15World) RoundTrip(req *http.Request) (*http.Response, error) {
 	full := req.URL.String()
-	key := c15NoQuery(full)
-	rec := c15Req{Kind: "other", Method: req.Method, URL: full, Cls: c15Class(full), Cred: "none", Pre: "na"}
+	rec := c15Req{Kind: "other", Method: req.Method, URL: full, Cls: c15Classify(full), Tag: c15Class(full), Cred: "none", Pre: "na"}
 	var body []byte
 	if req.Body != nil {
 		body, _ = io.ReadAll(req.Body)
 		req.Body.Close()
 	}
-	rt := w.routes[key]
+	rt := w.route(full)
 	idx := len(w.line.Reqs)
 	w.line.Reqs = append(w.line.Reqs, rec)
 	fin := func(r c15Req) { w.line.Reqs[idx] = r }
@@ -1074,6 +1192,9 @@ func (w *c15World) RoundTrip(req *http.Request) (*http.Response, error) {
 			return c15JSONResp(req, 201, reply), nil
 		case "js_uri":
 			reply[w.pick("client_uri", "logo_uri", "tos_uri", "policy_uri", "jwks_uri")] = w.scriptURL(w.pick("js", "data", "vbs"), "dcr")
+			return c15JSONResp(req, 201, reply), nil
+		case "jslo_uri":
+			reply[w.pick("client_uri", "logo_uri", "tos_uri", "policy_uri", "jwks_uri")] = w.scriptURL("jslo", "dcr")
 			return c15JSONResp(req, 201, reply), nil
 		case "neterr":
 			return nil, errC15Net
@@ -1125,13 +1246,13 @@ func c15JSONResp(req *http.Request, status int, v any) *http.Response {
 // fetch is the scripted AuthorizationCodeFetcher.
 func (w *c15World) fetch(ctx context.Context, args *auth.AuthorizationArgs) (*auth.AuthorizationResult, error) {
 	a := &w.line.Auth
-	a.Called, a.URL, a.Cls = true, args.URL, c15Class(args.URL)
+	a.Called, a.URL, a.Cls, a.Tag = true, args.URL, c15Classify(args.URL), c15Class(args.URL)
 	issInUse := "https://unknown-issuer.example"
 	var q url.Values
 	if u, err := url.Parse(args.URL); err == nil {
 		q = u.Query()
 	}
-	if rt := w.routes[c15NoQuery(args.URL)]; rt != nil && rt.kind == "auth" {
+	if rt := w.route(args.URL); rt != nil && rt.kind == "auth" {
 		issInUse, a.Adv = rt.issOf, rt.adv
 		a.AS, a.Predef = rt.as, rt.loc == "predef"
 		if rt.from != nil {
@@ -1234,7 +1355,7 @@ func c15Run(s *c15Script, seed uint64) *c15Line {
 	w := c15NewWorld(s, seed)
 	ln := &c15Line{ID: s.ID, Reqs: []c15Req{}, Served: []c15Served{}, Act: [][]string{},
 		Ares: c15Ares{State: "none", Iss: "none", StVar: "-", IssVar: "-", IssRel: "-"},
-		Auth: c15Auth{Cls: "none", Cred: "none", Pre: "na"},
+		Auth: c15Auth{Cls: c15URLCls{"none", "none", "none"}, Tag: "none", Cred: "none", Pre: "na"},
 		Exp:  c15Exp{Reqs: s.ExpReqs, Result: s.ExpResult, Changed: s.ExpChanged, Known: s.HasFinish}}
 	w.line = ln
 	status, hdrs := w.challenge()
@@ -1309,7 +1430,7 @@ func c15Run(s *c15Script, seed uint64) *c15Line {
 	}()
 	// resolve provenance: which served document a URL came from
 	resolve := func(raw string) int {
-		if rt := w.routes[c15NoQuery(raw)]; rt != nil && rt.from != nil {
+		if rt := w.route(raw); rt != nil && rt.from != nil {
 			return rt.from.obsIdx
 		}
 		return 0
